@@ -81,17 +81,38 @@ def make_dataset(cfg):
                            learn_scan_positions=cfg.get("learn_positions", True))
 
 
+def mat(v):
+    """materialise tagged numbers of a configuration: {"num": value, "kind": k} -> the same value as a Python int /
+    float, np.float32 / np.float64 / np.int64 scalar or 0-d array (values are chosen exactly representable in every
+    kind); containers are rebuilt, everything else is returned as it is"""
+    import numpy as np
+    if isinstance(v, dict):
+        if set(v) == {"num", "kind"}:
+            x, k = v["num"], v["kind"]
+            return {"int": lambda: int(x), "float": lambda: float(x), "f32": lambda: np.float32(x), "f64": lambda: np.float64(x),
+                    "i64": lambda: np.int64(x), "arr0": lambda: np.array(float(x)), "arr0f32": lambda: np.array(x, dtype=np.float32)}[k]()
+        return {k: mat(x) for k, x in v.items()}
+    if isinstance(v, list):
+        return [mat(x) for x in v]
+    return v
+
+
+def num_of(v):
+    """plain value of a possibly tagged number"""
+    return v["num"] if isinstance(v, dict) and set(v) == {"num", "kind"} else v
+
+
 def call_kwargs(call):
     """fresh kwargs for one reconstruct() call (reconstruct mutates the dicts it is given)"""
     kw = {"num_iters": int(call["n"])}
     if call.get("reset"):
         kw["reset"] = True
     if call.get("opt") is not None:
-        kw["optimizer_params"] = copy.deepcopy(call["opt"])
+        kw["optimizer_params"] = mat(copy.deepcopy(call["opt"]))
     if call.get("sched") is not None:
-        kw["scheduler_params"] = copy.deepcopy(call["sched"])
+        kw["scheduler_params"] = mat(copy.deepcopy(call["sched"]))
     if call.get("cons") is not None:
-        kw["constraints"] = copy.deepcopy(call["cons"])
+        kw["constraints"] = mat(copy.deepcopy(call["cons"]))
     if call.get("loss_type"):
         kw["loss_type"] = call["loss_type"]
     if call.get("snap") is not None:
